@@ -289,7 +289,7 @@ def run(ctx):
                      'alias of one of its attributes (C09 R09a)', 20)
     from . import c09 as _c09
     from .. import core as _core
-    _c09.run(_core.Proxy(ctx, 'R02n', ('R09a',)))
+    _core.run_proxied(ctx, _c09, 'R02n', ('R09a',))
 
     # ---- R02o
     ctx.rule('R02o', 'a token position derived from a regular-expression match is the end of the whole match '
@@ -297,6 +297,15 @@ def run(ctx):
     if match_extent(ctx, 'R02o', repo, TR) == 0:
         ctx.unknown('R02o', repo.mod(TR), None, 'no position derived from a regex match found',
                     construct='match extent')
+
+    # ---- R02q
+    ctx.rule('R02q', 'the name given to a call node and to the parser of an environment body is the name carried by '
+                     'the token (token.arg), not the name of the specification object', 3)
+    _names_from_token(ctx, repo)
+
+    # ---- R02p
+    ctx.rule('R02p', 'a delimited verbatim argument nests only on its own pair of delimiters', 1)
+    _verbatim_nesting(ctx, repo)
 
     return 'other', (
         'Decides the dispatch skeleton of the parser: every token kind the reader emits has a '
@@ -849,3 +858,97 @@ def match_extent(ctx, rule, repo, modname):
                                'before the text that was recognised (whitespace allowed by the pattern), and the '
                                'rest is read as stray characters' % (q, why), construct=cons)
     return n
+
+
+
+def _names_from_token(ctx, repo):
+    """R02q: the name a call node (and the parser that waits for its \\end) is given comes from the
+    token that was read, not from the specification object -- the fallback specification for
+    unknown macros/environments has the empty name"""
+    n = 0
+    for modname in ('pylatexenc.macrospec._macrocallparser', 'pylatexenc.macrospec._specclasses'):
+        mod = repo.mod(modname)
+        for q, f in sorted(mod.functions.items()):
+            tparams = [a.arg for a in f.args.args if a.arg.startswith('token')]
+            if not tparams:
+                continue
+            try:
+                cases = symex.Walker(is_sink=lambda c: isinstance(c, ast.Call) and any(
+                    k.arg in ('environmentname', 'macroname') for k in list(c.keywords) + [
+                        k2 for k1 in c.keywords if isinstance(k1.value, ast.Call) and call_name(k1.value) == 'dict'
+                        for k2 in k1.value.keywords])).run(f)
+            except symex.TooManyPaths:
+                continue
+            seen = set()
+            for cs in cases:
+                kws = list(cs.sub.keywords) + [k2 for k1 in cs.sub.keywords if isinstance(k1.value, ast.Call)
+                                               and call_name(k1.value) == 'dict' for k2 in k1.value.keywords]
+                for k in kws:
+                    if k.arg not in ('environmentname', 'macroname'):
+                        continue
+                    key = (id(cs.node), k.arg)
+                    if key in seen:
+                        continue
+                    seen.add(key)
+                    n += 1
+                    v = k.value
+                    ok = isinstance(v, ast.Attribute) and v.attr == 'arg' and isinstance(v.value, ast.Name) \
+                        and v.value.id in tparams
+                    ctx.decide('R02q', ok, mod, cs.node, '%s: %s is %s' % (q, k.arg, unparse(v)),
+                               '%s gives %s=%s, not the name carried by the token that was read (%s.arg): for the '
+                               'fallback specification of unknown names the two differ (the spec is named \'\'), so the '
+                               'body parser waits for \\end{} and the real \\end{name} is an error in strict mode'
+                               % (q, k.arg, short(v, 40), tparams[0]), construct='%s: %s=' % (q, k.arg))
+    return n
+
+
+
+def _verbatim_nesting(ctx, repo):
+    """R02p: the nesting depth of a delimited verbatim argument changes only at the argument's own
+    delimiters: +1 exactly on the paths where the character equals the opening delimiter that was
+    read, -1 exactly where it equals the closing one"""
+    vm = repo.mod('pylatexenc.latexnodes.parsers._verbatim')
+    f = vm.methods('LatexDelimitedVerbatimParser').get('new_char_check_stop_condition')
+    if f is None:
+        raise AnalysisError('anchor vanished: LatexDelimitedVerbatimParser.new_char_check_stop_condition')
+    ch = f.args.args[1].arg
+    info = [a.arg for a in f.args.args if 'info' in a.arg]
+    if not info:
+        ctx.unknown('R02p', vm, f, 'verbatim info parameter not found', construct='verbatim nesting')
+        return
+    dc = info[0] + '.depth_counter'
+    try:
+        cases = symex.Walker(want_exits=True, want_returns=False, track_attrs=(dc,)).run(f)
+    except symex.TooManyPaths as e:
+        ctx.unknown('R02p', vm, f, str(e), construct='verbatim nesting')
+        return
+    bad = None
+    n_up = n_down = 0
+    for cs in cases:
+        v = cs.env.get(dc)
+        if not isinstance(v, ast.AST) or unparse(v) == dc:
+            continue
+        try:
+            d = affine.diff(v, ast.parse(dc, mode='eval').body, {})
+        except affine.NotAffine:
+            d = None
+        facts = symex.facts_of(cs.conds, cs.env)
+        opener = ('%s == %s.parsed_delimiters[0]' % (ch, info[0]), True) in facts
+        closer = ('%s == %s.parsed_delimiters[1]' % (ch, info[0]), True) in facts
+        if d == (1, {}):
+            n_up += 1
+            if not opener and bad is None:
+                bad = (cs, 'the depth is increased on the path [%s], which does not test that the character is the '
+                           'opening delimiter that was read' % ' & '.join(cs.cond_src())[:160])
+        elif d == (-1, {}):
+            n_down += 1
+            if not closer and bad is None:
+                bad = (cs, 'the depth is decreased on the path [%s], which does not test that the character is the '
+                           'closing delimiter' % ' & '.join(cs.cond_src())[:160])
+        elif bad is None:
+            bad = (cs, 'the depth becomes %s' % short(v))
+    ctx.decide('R02p', bad is None and n_up > 0 and n_down > 0, vm, bad[0].node if bad else f,
+               'depth +1 only at the opening delimiter read, -1 only at its closing delimiter',
+               'delimited verbatim argument: %s: a bracket of another kind inside the argument changes the nesting '
+               'depth and the argument never closes (or closes early)' % (bad[1] if bad else 'no path changes the depth'),
+               construct='verbatim nesting')
